@@ -81,3 +81,92 @@ for _nm, _neg in (("__eq__", ""), ("__ne__", "not ")):
         ensures=[("keys-compare-by-key-name", "result == (%s(self.key == other.key))" % _neg)], modifies=[],
         inline_callees=[KEY + "__eq__"] if _nm == "__ne__" else [],
         properties=["C04"], battery="key_pairs")
+
+# ---------------------------------------------------------------- construction and the '[]' accessors
+CLASSES["BlankTrack"] = {"class": "mingus.containers.track.Track", "fields": {}}
+CLASSES["BlankComp"] = {"class": "mingus.containers.composition.Composition", "fields": {}}
+CLASSES["BarX"] = {"class": "mingus.containers.bar.Bar", "fields": {"bar": "list[any]"}}
+CLASSES["TrackX"] = {"class": "mingus.containers.track.Track", "fields": {"bars": "list[any]"}}
+
+
+def _idx_split(field, elem):
+    """every list length 0..3 x every index in range (bound), plus the out-of-range indices (symbolic)"""
+    return ([{"field_types": {field: "[" + ",".join([elem] * k) + "]"}, "bind": {"index": i}}
+             for k in range(0, 4) for i in range(-k, k)] +
+            [{"field_types": {field: "[" + ",".join([elem] * k) + "]"}, "assume": "index >= %d or index < %d" % (k, -k)}
+             for k in range(0, 4)])
+
+
+CONTRACTS[TR + "__init__"] = dict(
+    params={"self": "BlankTrack", "instrument": "None"}, returns="None",
+    ensures=[("no-bars", "len(self.bars) == 0"), ("a-bar-list-of-its-own", "is_fresh(self.bars)"),
+             ("instrument-kept", "is_None(self.instrument)")],
+    variants=[dict(name="default", params={"self": "BlankTrack"})],
+    modifies=["param:self"], properties=["C14", "C15"], battery="track_blank")
+CONTRACTS[TR + "__getitem__"] = dict(
+    params={"self": "TrackS", "index": "int"}, returns="any", modifies=[],
+    ensures=[("the-bar-itself", "same_object(result, self.bars[index])")],
+    raises={"IndexError": "index >= len(self.bars) or index < -len(self.bars)"},
+    split=_idx_split("self.bars", "BarX"), split_is_domain=True, properties=["C14"], inline=True, battery="track_index")
+CONTRACTS[TR + "__setitem__"] = dict(
+    params={"self": "TrackS", "index": "int", "value": "BarX"}, returns="None",
+    old={"old_bars": "list(self.bars)"}, old_by_reference=["old_bars"],
+    ensures=[("that-place-holds-the-bar-given", "same_object(self.bars[index], value)"),
+             ("every-other-place-keeps-its-bar",
+              "len(self.bars) == len(old_bars) and all([i == index or i == index + len(old_bars) or "
+              "same_object(self.bars[i], old_bars[i]) for i in range(len(old_bars))])")],
+    raises={"IndexError": "index >= len(self.bars) or index < -len(self.bars)"},
+    variants=[dict(name="not-a-bar", params={"self": "TrackS", "index": "int", "value": "int"},
+                   ensures=[], raises={"UnexpectedObjectError": "True"})],
+    split=_idx_split("self.bars", "BarX"), split_is_domain=True,
+    modifies=["param:self.bars"], properties=["C14"], battery="track_setitem")
+
+CONTRACTS[CO + "__init__"] = dict(
+    params={"self": "BlankComp"}, returns="None",
+    ensures=[("no-tracks-none-selected", "len(self.tracks) == 0 and len(self.selected_tracks) == 0"),
+             ("lists-of-its-own", "is_fresh(self.tracks) and is_fresh(self.selected_tracks)")],
+    modifies=["param:self"], properties=["C14", "C15"], battery="comp_blank")
+CONTRACTS[CO + "reset"] = dict(
+    params={"self": "CompS"}, returns="None",
+    ensures=[("no-tracks-none-selected", "len(self.tracks) == 0 and len(self.selected_tracks) == 0"),
+             ("lists-of-its-own", "is_fresh(self.tracks) and is_fresh(self.selected_tracks)"),
+             ("title-and-author-back-to-the-defaults",
+              "self.title == 'Untitled' and self.subtitle == '' and self.author == '' and self.email == ''")],
+    modifies=["param:self"], properties=["C14"], battery="comps")
+CONTRACTS[CO + "__getitem__"] = dict(
+    params={"self": "CompS", "index": "int"}, returns="any", modifies=[],
+    ensures=[("the-track-itself", "same_object(result, self.tracks[index])")],
+    raises={"IndexError": "index >= len(self.tracks) or index < -len(self.tracks)"},
+    split=_idx_split("self.tracks", "TrackX"), split_is_domain=True, properties=["C14"], inline=True, battery="comp_index")
+CONTRACTS[CO + "__setitem__"] = dict(
+    params={"self": "CompS", "index": "int", "value": "TrackX"}, returns="None",
+    old={"old_tracks": "list(self.tracks)"}, old_by_reference=["old_tracks"],
+    ensures=[("that-place-holds-the-track-given", "same_object(self.tracks[index], value)"),
+             ("every-other-place-keeps-its-track",
+              "len(self.tracks) == len(old_tracks) and all([i == index or i == index + len(old_tracks) or "
+              "same_object(self.tracks[i], old_tracks[i]) for i in range(len(old_tracks))])")],
+    raises={"IndexError": "index >= len(self.tracks) or index < -len(self.tracks)"},
+    split=_idx_split("self.tracks", "TrackX"), split_is_domain=True,
+    modifies=["param:self.tracks"], properties=["C14"], battery="comp_setitem")
+
+CONTRACTS[NC + "__len__"] = dict(
+    params={"self": "NoteContainer"}, returns="int", ensures=[("number-of-notes", "result == len(self.notes)")], modifies=[],
+    split=_SZ, split_is_domain=True, inline=True, properties=["C12"], battery="nc_only")
+CONTRACTS[NC + "__getitem__"] = dict(
+    params={"self": "NoteContainer", "item": "int"}, returns="any", modifies=[],
+    ensures=[("the-note-itself", "same_object(result, self.notes[item])")],
+    raises={"IndexError": "item >= len(self.notes) or item < -len(self.notes)"},
+    split=[dict((("bind", {"item": d["bind"]["index"]}) if k == "bind" else (k, v.replace("index", "item") if k == "assume" else v))
+                for k, v in d.items()) for d in _idx_split("self.notes", "Note")],
+    split_is_domain=True, properties=["C12"], inline=True, battery="nc_index")
+
+CLASSES["BlankNC"] = {"class": "mingus.containers.note_container.NoteContainer", "fields": {}}
+CONTRACTS[NC + "__init__"] = dict(
+    params={"self": "BlankNC", "notes": "None"}, returns="None", requires="is_None(notes)",
+    ensures=[("no-notes", "len(self.notes) == 0"), ("a-note-list-of-its-own", "is_fresh(self.notes)")],
+    variants=[dict(name="default", params={"self": "BlankNC"}, requires="True"),
+              dict(name="one-name", params={"self": "BlankNC", "notes": "str"}, requires="is_name(notes)",
+                   ensures=[("that-note-in-octave-4", "len(self.notes) == 1 and self.notes[0].name == notes and "
+                                                      "self.notes[0].octave == 4"),
+                            ("a-note-list-of-its-own", "is_fresh(self.notes)")])],
+    modifies=["param:self"], properties=["C12", "C15"], battery="nc_blank")
